@@ -355,7 +355,7 @@ func runC10(p *Prog, l *Ledger) {
 					}
 					if c.Static != nil && c.Recv != nil && p.InModule(c.Static) && AccessPath(c.Recv).Root == ssa.Value(m.Params[0]) && c.Static != m {
 						// a wake-up helper of the listener or of the limiter it belongs to (unblock): it hands something over
-						if len(AccessPath(c.Recv).Sel) == 0 || c10Wakes(p, c.Static, 3) {
+						if c10AlwaysWakes(p, c.Static, 3) {
 							wake = ins
 						}
 					}
@@ -373,6 +373,7 @@ func runC10(p *Prog, l *Ledger) {
 		}
 	}
 
+	c10RawCompletions(p, l)
 	c10Queue(p, l, locks)
 	// (d) give-up drains the hand-off channel under the delivery mutex and hands what it finds to its caller (C02/O4)
 	importObligations(p, l, "C02", "O5", func(o *Obligation) bool { return o.Rule == "O4" })
@@ -703,4 +704,180 @@ func c10Waits(p *Prog, fn *ssa.Function, depth int) bool {
 		}
 	})
 	return found
+}
+
+// c10RawCompletions: inside the queueing limiter a delegate listener (what delegate.Acquire or the hand-off channel
+// yielded) is completed only where a delivery to a waiter was refused - the single place where a token is in hand and
+// nobody to give it to. Anywhere else, completing it gives the capacity back behind the backlog's back: no waiter is
+// woken, and the caller it belonged to is refused although it had been granted.
+func c10RawCompletions(p *Prog, l *Ledger) {
+	lis := p.coreNamed("Listener")
+	var owners []*types.Named
+	for _, nt := range p.Implementers(p.coreIface("Limiter")) {
+		if !strings.HasPrefix(p.TypeKey(nt), "limiter.") {
+			continue
+		}
+		if st, ok := nt.Underlying().(*types.Struct); ok {
+			for i := 0; i < st.NumFields(); i++ {
+				if d := derefNamed(st.Field(i).Type()); d != nil {
+					if ds, ok := d.Underlying().(*types.Struct); ok {
+						for j := 0; j < ds.NumFields(); j++ {
+							if isListPtr(ds.Field(j).Type()) {
+								owners = append(owners, nt)
+							}
+						}
+					}
+				}
+			}
+		}
+	}
+	for _, nt := range owners {
+		var bad []string
+		n := 0
+		// the limiter's own methods and those of the listeners it hands out (types holding a pointer to it)
+		fns := p.MethodsOf(nt)
+		for _, lt := range p.structTypes("limiter") {
+			if len(fieldsOfType(lt, types.NewPointer(nt))) > 0 {
+				fns = append(fns, p.MethodsOf(lt)...)
+			}
+		}
+		for _, f := range fns {
+			allInstrs(f, func(ins ssa.Instruction) {
+				call, ok := ins.(*ssa.Call)
+				if !ok {
+					return
+				}
+				c := p.CallOf(call)
+				isOutcome := false
+				for _, o := range c02Outcomes {
+					if p.isCoreInvoke(c, "Listener", o) {
+						isOutcome = true
+					}
+				}
+				if !isOutcome || c.Recv == nil || !types.Identical(c.Recv.Type(), lis) {
+					return
+				}
+				if _, _, isField := loadedField(strip(c.Recv, false)); isField {
+					return // a wrapping listener forwarding to its delegate listener
+				}
+				n++
+				okAll := true
+				EnumPathsPrefix(f, call, 100000, func(pa *Path) bool {
+					st := pa.StepOf(call)
+					refusedDelivery := false
+					for _, fct := range pa.Facts {
+						if fct.Step > st || fct.True {
+							continue
+						}
+						if dc, isCall := fct.Cond.(*ssa.Call); isCall {
+							cc := p.CallOf(dc)
+							if cc.Static != nil && p.InModule(cc.Static) && len(cc.Args) == 1 && types.Identical(cc.Args[0].Type(), lis) {
+								refusedDelivery = true
+							}
+						}
+					}
+					if !refusedDelivery {
+						okAll = false
+						return false
+					}
+					return true
+				})
+				if !okAll {
+					bad = append(bad, fmt.Sprintf("%s: %s completes a delegate listener itself (%s) on a path where no delivery to a waiter was refused: the capacity goes back without the next waiter being woken", p.At(ins), p.Key(f), c.Iface.Name()))
+				}
+			})
+		}
+		l.Check(len(bad) == 0, "O5", p.TypeKey(nt)+"/raw-completions", "", fmt.Sprintf("%d completion(s) of a delegate listener by the limiter itself, each on the refused-delivery edge", n), "capacity can be released behind the backlog's back", bad...)
+	}
+}
+
+// c10HandoffFns: the functions that acquire from the delegate for a waiter and deliver to it (the hand-off).
+func c10HandoffFns(p *Prog) map[*ssa.Function]bool {
+	if p.handoffFns != nil {
+		return p.handoffFns
+	}
+	lis := p.coreNamed("Listener")
+	out := map[*ssa.Function]bool{}
+	for _, f := range p.Funcs {
+		if !p.InPkg(f, "limiter") {
+			continue
+		}
+		acq, deliver := false, false
+		allInstrs(f, func(ins ssa.Instruction) {
+			switch x := ins.(type) {
+			case *ssa.Select:
+				for _, st := range x.States {
+					if st.Dir == types.SendOnly && st.Send != nil && types.Identical(st.Send.Type(), lis) {
+						deliver = true
+					}
+				}
+			case *ssa.Send:
+				if types.Identical(x.X.Type(), lis) {
+					deliver = true
+				}
+			case *ssa.Call:
+				c := p.CallOf(x)
+				if p.callsRoleMethod(c, "Limiter", "Acquire") {
+					acq = true
+				}
+				if c.Static != nil && len(c.Args) == 1 && types.Identical(c.Args[0].Type(), lis) && p.InModule(c.Static) {
+					deliver = true
+				}
+			}
+		})
+		if acq && deliver {
+			out[f] = true
+		}
+	}
+	p.handoffFns = out
+	return out
+}
+
+// c10AlwaysWakes: calling g wakes whoever can be woken, whatever g decides to look at first: g is a hand-off function
+// (which decides under the limiter's mutex that nobody waits), or every returning path of g signals a condition or calls
+// a function that always wakes. A helper that skips the hand-off on a test of its own (the backlog looks empty) does not.
+func c10AlwaysWakes(p *Prog, g *ssa.Function, depth int) bool {
+	if g == nil || g.Blocks == nil {
+		return false
+	}
+	if c10HandoffFns(p)[g] {
+		return true
+	}
+	if depth <= 0 {
+		return false
+	}
+	ok, n := true, 0
+	EnumPaths(g, 20000, func(pa *Path) bool {
+		if !pa.IsReturn() {
+			return true
+		}
+		n++
+		woke := false
+		pa.Each(func(step int, ins ssa.Instruction) bool {
+			ci, isC := ins.(ssa.CallInstruction)
+			if !isC {
+				return true
+			}
+			if _, isGo := ins.(*ssa.Go); isGo {
+				return true
+			}
+			c := p.CallOf(ci)
+			if c == nil {
+				return true
+			}
+			if c.Is("(*sync.Cond).Broadcast", "(*sync.Cond).Signal") {
+				woke = true
+			}
+			if c.Static != nil && c.Static != g && p.InModule(c.Static) && c10AlwaysWakes(p, c.Static, depth-1) {
+				woke = true
+			}
+			return !woke
+		})
+		if !woke {
+			ok = false
+			return false
+		}
+		return true
+	})
+	return ok && n > 0
 }
